@@ -176,17 +176,7 @@ func runC14(c *Ctx) {
 					nAssert++
 					akey := fmt.Sprintf("unchecked assertion .(%s) in %s", types.TypeString(x.AssertedType, nil), shortFn(f))
 					fromParam := false
-					for _, r := range rootsOf(f, x.X, nil) {
-						switch rr := r.(type) {
-						case *ssa.Parameter, *ssa.FreeVar:
-							fromParam = true
-						case *ssa.FieldAddr:
-							switch rr.X.(type) {
-							case *ssa.Parameter, *ssa.FreeVar:
-								fromParam = true
-							}
-						}
-					}
+					fromParam = derivesFromParam(x.X, 0, map[ssa.Value]bool{})
 					if fromParam {
 						c.Undecided("R14.2", akey, x.Pos(), "the asserted value comes from a parameter: what the callers pass decides it, and no rule follows it here")
 						continue
@@ -343,6 +333,21 @@ func nonNegative(b *ssa.BasicBlock, idx ssa.Value) bool {
 			continue
 		}
 		if (bo.Op == token.LSS && !cd.pol && isConstInt(bo.Y, 0)) || (bo.Op == token.GEQ && cd.pol && isConstInt(bo.Y, 0)) {
+			return true
+		}
+	}
+	// the same tests written with the constant on the left: 0 <= idx, !(0 > idx); and idx > -1
+	for _, cd := range controlConds(b) {
+		bo, ok := cd.v.(*ssa.BinOp)
+		if !ok {
+			continue
+		}
+		if stripConv(bo.Y) == idx && isConstInt(bo.X, 0) {
+			if (bo.Op == token.LEQ && cd.pol) || (bo.Op == token.GTR && !cd.pol) {
+				return true
+			}
+		}
+		if stripConv(bo.X) == idx && isConstInt(bo.Y, -1) && ((bo.Op == token.GTR && cd.pol) || (bo.Op == token.LEQ && !cd.pol)) {
 			return true
 		}
 	}
@@ -1633,6 +1638,7 @@ func checkRecursion(c *Ctx, ri *reachInfo, scope []*ssa.Function) {
 		descends bool
 	}
 	adj := map[*ssa.Function][]edge{}
+	derived := map[ssa.CallInstruction]bool{} // call sites whose arguments are computed from the parameters through other calls
 	for _, f := range scope {
 		n := ri.res.CallGraph.Nodes[f]
 		if n == nil {
@@ -1647,6 +1653,9 @@ func checkRecursion(c *Ctx, ri *reachInfo, scope []*ssa.Function) {
 				continue // a call of a function value: RTA resolves it by signature only; resolved by value flow below
 			}
 			adj[f] = append(adj[f], edge{g, e.Site, descendsOnParam(f, e.Site) || depthGuarded(f, e.Site)})
+			if derivedFromParamByCall(f, e.Site) {
+				derived[e.Site] = true
+			}
 		}
 		// calls of function values: the functions that can flow into the called value (closures and method values built
 		// in this function, or stored into the struct field it is loaded from)
@@ -1743,6 +1752,7 @@ func checkRecursion(c *Ctx, ri *reachInfo, scope []*ssa.Function) {
 		color := map[*ssa.Function]int{}
 		var cyc []string
 		var pos token.Pos
+		cycDerived := false
 		var dfs func(v *ssa.Function, path []string) bool
 		dfs = func(v *ssa.Function, path []string) bool {
 			color[v] = 1
@@ -1751,6 +1761,7 @@ func checkRecursion(c *Ctx, ri *reachInfo, scope []*ssa.Function) {
 					cyc = append(append([]string{}, path...), shortFn(v), shortFn(e.to))
 					if e.site != nil {
 						pos = e.site.Pos()
+						cycDerived = derived[e.site]
 					}
 					return true
 				}
@@ -1770,6 +1781,11 @@ func checkRecursion(c *Ctx, ri *reachInfo, scope []*ssa.Function) {
 		}
 		if len(names) > 6 {
 			names = append(names[:6], fmt.Sprintf("… (%d functions)", len(comp)))
+		}
+		if bad && cycDerived {
+			c.Undecided("R14.6", "recursion through "+strings.Join(names, ", ")+" descends on an argument", pos,
+				"the recursive call receives a value computed from the parameters by another function (e.g. the children of a node returned by a helper): whether it is smaller is not decided")
+			continue
 		}
 		c.Check("R14.6", "recursion through "+strings.Join(names, ", ")+" descends on an argument", pos, !bad,
 			"the cycle "+strings.Join(cyc, " → ")+" passes on only its own parameters (or values not taken out of them): nothing gets structurally smaller, so the depth of the recursion grows with the amount of input consumed and a long enough input ends in `fatal error: stack overflow` and a stack trace",
@@ -2205,4 +2221,115 @@ func rangedCollection(idx ssa.Value) ssa.Value {
 		}
 	}
 	return nil
+}
+
+// derivedFromParamByCall: some argument of the call is computed from a parameter of the caller through another call
+// (children(n), n.Operands(), ...), possibly followed by projections: neither the parameter itself nor a plain projection.
+func derivedFromParamByCall(f *ssa.Function, site ssa.CallInstruction) bool {
+	var walk func(v ssa.Value, viaCall bool, depth int, seen map[ssa.Value]bool) bool
+	walk = func(v ssa.Value, viaCall bool, depth int, seen map[ssa.Value]bool) bool {
+		if v == nil || depth > 40 || seen[v] {
+			return false
+		}
+		seen[v] = true
+		switch x := v.(type) {
+		case *ssa.Parameter, *ssa.FreeVar:
+			return viaCall
+		case *ssa.Call:
+			for _, a := range x.Call.Args {
+				if walk(a, true, depth+1, seen) {
+					return true
+				}
+			}
+			if x.Call.IsInvoke() {
+				return walk(x.Call.Value, true, depth+1, seen)
+			}
+		case *ssa.UnOp:
+			return walk(x.X, viaCall, depth+1, seen)
+		case *ssa.FieldAddr:
+			return walk(x.X, viaCall, depth+1, seen)
+		case *ssa.IndexAddr:
+			return walk(x.X, viaCall, depth+1, seen)
+		case *ssa.Field:
+			return walk(x.X, viaCall, depth+1, seen)
+		case *ssa.Index:
+			return walk(x.X, viaCall, depth+1, seen)
+		case *ssa.Extract:
+			return walk(x.Tuple, viaCall, depth+1, seen)
+		case *ssa.Next:
+			return walk(x.Iter, viaCall, depth+1, seen)
+		case *ssa.Range:
+			return walk(x.X, viaCall, depth+1, seen)
+		case *ssa.TypeAssert:
+			return walk(x.X, viaCall, depth+1, seen)
+		case *ssa.MakeInterface:
+			return walk(x.X, viaCall, depth+1, seen)
+		case *ssa.ChangeInterface:
+			return walk(x.X, viaCall, depth+1, seen)
+		case *ssa.ChangeType:
+			return walk(x.X, viaCall, depth+1, seen)
+		case *ssa.Slice:
+			return walk(x.X, viaCall, depth+1, seen)
+		case *ssa.Phi:
+			for _, e := range x.Edges {
+				if walk(e, viaCall, depth+1, seen) {
+					return true
+				}
+			}
+		case *ssa.Alloc:
+			for _, r := range *x.Referrers() {
+				if st, ok := r.(*ssa.Store); ok && st.Addr == ssa.Value(x) && walk(st.Val, viaCall, depth+1, seen) {
+					return true
+				}
+			}
+		}
+		return false
+	}
+	for _, a := range site.Common().Args {
+		if walk(a, false, 0, map[ssa.Value]bool{}) {
+			return true
+		}
+	}
+	return false
+}
+
+// derivesFromParam: v is obtained from a parameter (or free variable) of its function by loads, projections and assertions.
+func derivesFromParam(v ssa.Value, depth int, seen map[ssa.Value]bool) bool {
+	if v == nil || depth > 30 || seen[v] {
+		return false
+	}
+	seen[v] = true
+	switch x := v.(type) {
+	case *ssa.Parameter, *ssa.FreeVar:
+		return true
+	case *ssa.UnOp:
+		return derivesFromParam(x.X, depth+1, seen)
+	case *ssa.FieldAddr:
+		return derivesFromParam(x.X, depth+1, seen)
+	case *ssa.Field:
+		return derivesFromParam(x.X, depth+1, seen)
+	case *ssa.IndexAddr:
+		return derivesFromParam(x.X, depth+1, seen)
+	case *ssa.Index:
+		return derivesFromParam(x.X, depth+1, seen)
+	case *ssa.Slice:
+		return derivesFromParam(x.X, depth+1, seen)
+	case *ssa.TypeAssert:
+		return derivesFromParam(x.X, depth+1, seen)
+	case *ssa.Extract:
+		return derivesFromParam(x.Tuple, depth+1, seen)
+	case *ssa.Phi:
+		for _, e := range x.Edges {
+			if derivesFromParam(e, depth+1, seen) {
+				return true
+			}
+		}
+	case *ssa.Alloc:
+		for _, r := range *x.Referrers() {
+			if st, ok := r.(*ssa.Store); ok && st.Addr == ssa.Value(x) && derivesFromParam(st.Val, depth+1, seen) {
+				return true
+			}
+		}
+	}
+	return false
 }
